@@ -493,8 +493,7 @@ def j_cost(kind, pre, ln):
         bound = max(c * m, len(es) * (3 * lg(m) if pq else 8 * lg(m) + 8))
     elif op == "append":
         es, _ = entries(ln.args, 0)
-        # the measured window also contains building the other queue by pushes
-        bound = c * m + sum(pushb(j) for j in range(len(es)))
+        bound = c * m      # building the other queue is outside the measured window
     if bound is not None and dt > bound:
         return "%s on %d elements performed %d comparisons; the proved bound is %d" % (op, n, dt, bound)
     return None
@@ -656,7 +655,7 @@ def j_capacity(kind, pre, ln):
 JUDGES = {
     "C01": [j_extreme], "C02": [j_extreme], "C03": [j_contents], "C04": [j_wf], "C05": [j_cost],
     "C06": [j_sorted, j_nofault], "C07": [j_contents, j_extreme, j_nofault], "C08": [j_contents, j_extreme, j_nofault], "C09": [j_contents, j_nofault],
-    "C10": [j_wf], "C11": [j_contents, j_extreme], "C12": [j_contents], "C13": [j_iters, j_sorted, j_nofault], "C14": [j_eq, j_contents],
+    "C10": [j_wf], "C11": [j_contents, j_extreme], "C12": [j_contents, j_extreme], "C13": [j_iters, j_sorted, j_nofault], "C14": [j_eq, j_contents],
     "C15": [j_contents, j_extreme, j_wf], "C16": [j_contents, j_iters, j_wf], "C17": [j_capacity, j_contents],
     "C18": [j_contents, j_extreme],
 }
